@@ -350,6 +350,36 @@ func queryFieldUse(p *Prog, r *Report, kp func(string, string) string, mod strin
 			}
 		}
 		scan(fn, fn.Params[2])
+		// closures capturing the request (a filter predicate handed to an iteration helper): the captured value is a free variable
+		for _, b := range fn.Blocks {
+			for _, in := range b.Instrs {
+				mc, ok := in.(*ssa.MakeClosure)
+				if !ok {
+					continue
+				}
+				cf := mc.Fn.(*ssa.Function)
+				for i, bd := range mc.Bindings {
+					if i >= len(cf.FreeVars) {
+						break
+					}
+					switch {
+					case bd == ssa.Value(fn.Params[2]):
+						scan(cf, cf.FreeVars[i])
+					default:
+						// the parameter spilled to a local whose address is captured: loads of the free variable are the request
+						if al, isAl := bd.(*ssa.Alloc); isAl && isParamSpillOf(al, fn.Params[2]) {
+							for _, cb := range cf.Blocks {
+								for _, cin := range cb.Instrs {
+									if u, isU := cin.(*ssa.UnOp); isU && u.X == ssa.Value(cf.FreeVars[i]) {
+										scan(cf, u)
+									}
+								}
+							}
+						}
+					}
+				}
+			}
+		}
 		for i := 0; i < st.NumFields(); i++ {
 			f := st.Field(i)
 			if strings.HasPrefix(f.Name(), "XXX_") || f.Name() == "Pagination" {
@@ -473,4 +503,16 @@ func pnftViewsAgree(p *Prog, r *Report, kp func(string, string) string) {
 			"sibling agreement: every view of a token (single item, by denom, by denom and owner) builds each field from the same source", v.pos,
 			fmt.Sprintf("%d fields agree", len(fields)), strings.Join(diffs, "; "))
 	}
+}
+
+// isParamSpillOf: al is the local that holds parameter prm (stored once, at entry).
+func isParamSpillOf(al *ssa.Alloc, prm *ssa.Parameter) bool {
+	if refs := al.Referrers(); refs != nil {
+		for _, rf := range *refs {
+			if st, ok := rf.(*ssa.Store); ok && st.Addr == ssa.Value(al) && st.Val == ssa.Value(prm) {
+				return true
+			}
+		}
+	}
+	return false
 }
